@@ -1407,8 +1407,523 @@ pub fn run(cfg: &Cfg, out: &mut Out) {
 // of the lock-free bucket).  Every recorded value is distinct, so "each value appears in exactly one snapshot"
 // is checked literally.  The only loss the unchanged code shows has the K1 trace signature of the bucket
 // (K-C05-K1); anything else — a loss without that signature, or a value in two snapshots — is a violation.
+// ---------------------------------------------------------------------------------------------
+// concurrent stream: several threads register / update / snapshot through ONE recorder under the deterministic
+// scheduler; the yield points are the harness's own `c19.call` (before every call) and the registry's
+// `reg.goc.read` / `reg.goc.write` (the read-miss / write-section window of `get_or_create_*`).  Histogram
+// `record` and `snapshot` run as one step (`sched::muted`; the points inside the bucket are the other stream's).
+// The schedule that was taken goes to the model (`debug conc`, Model/DebuggingConc); independently a reference
+// kept here ("one cell per (kind, key class), whoever registered it") replays the calls in the order their grants
+// took effect and says what every snapshot must show.
+
+#[derive(Clone, Debug)]
+enum RUpd {
+    CInc(u64),
+    CAbs(u64),
+    GSet(i64),
+    GAdd(i64),
+    HRec(i64),
+}
+
+#[derive(Clone, Debug)]
+enum RCall {
+    Reg { kind: u8, cls: usize, key: Key },
+    Upd { h: usize, u: RUpd },
+    Snap,
+}
+
+fn rupd_tok(u: &RUpd) -> String {
+    match u {
+        RUpd::CInc(n) => format!("ci{}", n),
+        RUpd::CAbs(n) => format!("ca{}", n),
+        RUpd::GSet(v) => format!("gs{}", v),
+        RUpd::GAdd(v) => format!("ga{}", v),
+        RUpd::HRec(v) => format!("hr{}", v),
+    }
+}
+
+fn rcall_tok(c: &RCall) -> String {
+    match c {
+        RCall::Reg { kind, cls, key } => format!("r/{}/{}:{}", kind_tok(*kind), cls, key.get_hash()),
+        RCall::Upd { h, u } => format!("u/{}/{}", h, rupd_tok(u)),
+        RCall::Snap => "s".to_string(),
+    }
+}
+
+fn rprog_tok(p: &[RCall]) -> String {
+    if p.is_empty() {
+        "-".into()
+    } else {
+        p.iter().map(rcall_tok).collect::<Vec<_>>().join("+")
+    }
+}
+
+/// dyadic numerator of a value the stream recorded (all of them are n/1024)
+fn num_of(v: f64) -> String {
+    let s = v * 1024.0;
+    if v.is_finite() && s.fract() == 0.0 && s.abs() < 9.0e15 {
+        format!("{}", s as i64)
+    } else {
+        format!("bits{}", v.to_bits())
+    }
+}
+
+fn rsnap_tok(snap: &Snap, classes: &[String]) -> String {
+    let toks: Vec<String> = snap
+        .iter()
+        .map(|(ck, _, _, v)| {
+            let id = canon_id(ck.key().name(), &labels_of(ck.key()));
+            let cls = classes.iter().position(|c| *c == id).map(|i| i.to_string()).unwrap_or_else(|| "?".into());
+            let val = match v {
+                DebugValue::Counter(n) => format!("c{}", n),
+                DebugValue::Gauge(g) => format!("g{}", num_of(g.0)),
+                DebugValue::Histogram(vs) => format!("h{}", vs.iter().map(|x| num_of(x.0)).collect::<Vec<_>>().join("_")),
+            };
+            format!("{}/{}/{}", kind_tok(kind_of(ck.kind())), cls, val)
+        })
+        .collect();
+    if toks.is_empty() {
+        "empty".into()
+    } else {
+        toks.join(";")
+    }
+}
+
+fn real_shard_count() -> usize {
+    let dbg = format!("{:?}", DebuggingRecorder::new());
+    dbg.rsplit("shard_mask: ")
+        .next()
+        .and_then(|s| s.split(|c: char| !c.is_ascii_digit()).next())
+        .and_then(|s| s.parse::<usize>().ok())
+        .expect("shard_mask")
+        + 1
+}
+
+struct ROutcome {
+    run: crate::sched::RunResult,
+    snaps: Vec<Vec<String>>,
+    fin: String,
+}
+
+fn r_execute(progs: &[Vec<RCall>], classes: &[String], schedule: &[usize]) -> ROutcome {
+    use std::sync::Mutex;
+    let rec = Arc::new(DebuggingRecorder::new());
+    let snapper = rec.snapshotter();
+    let snaps: Arc<Mutex<Vec<Vec<String>>>> = Arc::new(Mutex::new(vec![vec![]; progs.len()]));
+    let classes_a: Arc<Vec<String>> = Arc::new(classes.to_vec());
+    let mut bodies: Vec<Box<dyn FnOnce() + Send + 'static>> = vec![];
+    for (t, prog) in progs.iter().enumerate() {
+        let prog = prog.clone();
+        let rec = rec.clone();
+        let snapper = snapper.clone();
+        let snaps = snaps.clone();
+        let classes = classes_a.clone();
+        bodies.push(Box::new(move || {
+            let mut hs: Vec<H> = vec![];
+            for c in prog {
+                metrics::verif::point("c19.call");
+                match c {
+                    RCall::Reg { kind, key, .. } => hs.push(match kind {
+                        0 => H::C(rec.register_counter(&key, &META)),
+                        1 => H::G(rec.register_gauge(&key, &META)),
+                        _ => H::H(rec.register_histogram(&key, &META)),
+                    }),
+                    RCall::Upd { h, u } => match (&hs[h], u) {
+                        (H::C(c), RUpd::CInc(n)) => c.increment(n),
+                        (H::C(c), RUpd::CAbs(n)) => c.absolute(n),
+                        (H::G(g), RUpd::GSet(v)) => g.set(dy(v)),
+                        (H::G(g), RUpd::GAdd(d)) => {
+                            if d >= 0 {
+                                g.increment(dy(d))
+                            } else {
+                                g.decrement(dy(-d))
+                            }
+                        }
+                        (H::H(hh), RUpd::HRec(v)) => crate::sched::muted(|| hh.record(dy(v))),
+                        _ => panic!("update of the wrong kind generated"),
+                    },
+                    RCall::Snap => {
+                        let s = crate::sched::muted(|| snapper.snapshot().into_vec());
+                        snaps.lock().unwrap()[t].push(rsnap_tok(&s, &classes));
+                    }
+                }
+            }
+        }));
+    }
+    let run = crate::sched::run(bodies, schedule);
+    let fin = rsnap_tok(&snapper.snapshot().into_vec(), classes);
+    let snaps = snaps.lock().unwrap().clone();
+    ROutcome { run, snaps, fin }
+}
+
+/// what every snapshot must show, from the property alone: replay of the calls in the order of their grants
+fn r_reference(progs: &[Vec<RCall>], trace: &[(usize, &'static str)]) -> Option<(Vec<Vec<String>>, String)> {
+    #[derive(Clone)]
+    enum Cell {
+        C(u64),
+        G(i64),
+        H(Vec<i64>),
+    }
+    let mut seen: Vec<(u8, usize)> = vec![]; // (kind, class) in order of first track_metric
+    let mut cells: HashMap<(u8, usize), Cell> = HashMap::new(); // exists once some registration has completed its creation
+    let mut pc: Vec<usize> = vec![0; progs.len()]; // index of the call that is running / next
+    let mut handles: Vec<Vec<(u8, usize)>> = vec![vec![]; progs.len()];
+    let mut snaps: Vec<Vec<String>> = vec![vec![]; progs.len()];
+    fn show(seen: &[(u8, usize)], cells: &mut HashMap<(u8, usize), Cell>) -> String {
+        let mut toks = vec![];
+        for m in seen {
+            if let Some(c) = cells.get_mut(m) {
+                let v = match c {
+                    Cell::C(n) => format!("c{}", n),
+                    Cell::G(g) => format!("g{}", g),
+                    Cell::H(vs) => {
+                        let t = format!("h{}", vs.iter().map(|x| x.to_string()).collect::<Vec<_>>().join("_"));
+                        vs.clear();
+                        t
+                    }
+                };
+                toks.push(format!("{}/{}/{}", kind_tok(m.0), m.1, v));
+            }
+        }
+        if toks.is_empty() {
+            "empty".into()
+        } else {
+            toks.join(";")
+        }
+    }
+    for (t, id) in trace {
+        let t = *t;
+        match *id {
+            "start" => {}
+            "c19.call" => match progs[t].get(pc[t])? {
+                RCall::Reg { kind, cls, .. } => {
+                    if !seen.contains(&(*kind, *cls)) {
+                        seen.push((*kind, *cls));
+                    }
+                }
+                RCall::Upd { h, u } => {
+                    let m = *handles[t].get(*h)?;
+                    let c = cells.get_mut(&m)?;
+                    match (c, u) {
+                        (Cell::C(c), RUpd::CInc(n)) => *c = c.wrapping_add(*n),
+                        (Cell::C(c), RUpd::CAbs(n)) => *c = (*c).max(*n),
+                        (Cell::G(g), RUpd::GSet(v)) => *g = *v,
+                        (Cell::G(g), RUpd::GAdd(d)) => *g += *d,
+                        (Cell::H(vs), RUpd::HRec(v)) => vs.push(*v),
+                        _ => return None,
+                    }
+                    pc[t] += 1;
+                }
+                RCall::Snap => {
+                    let s = show(&seen, &mut cells);
+                    snaps[t].push(s);
+                    pc[t] += 1;
+                }
+            },
+            // the read section: the registration completes iff the metric exists by now
+            "reg.goc.read" => {
+                if let RCall::Reg { kind, cls, .. } = progs[t].get(pc[t])? {
+                    if cells.contains_key(&(*kind, *cls)) {
+                        handles[t].push((*kind, *cls));
+                        pc[t] += 1;
+                    }
+                } else {
+                    return None;
+                }
+            }
+            // the write section: creates the metric unless it exists by now; either way the registration completes
+            "reg.goc.write" => {
+                if let RCall::Reg { kind, cls, .. } = progs[t].get(pc[t])? {
+                    cells.entry((*kind, *cls)).or_insert(match kind {
+                        0 => Cell::C(0),
+                        1 => Cell::G(0),
+                        _ => Cell::H(vec![]),
+                    });
+                    handles[t].push((*kind, *cls));
+                    pc[t] += 1;
+                } else {
+                    return None;
+                }
+            }
+            _ => return None,
+        }
+    }
+    if pc.iter().zip(progs).any(|(p, prog)| *p != prog.len()) {
+        return None;
+    }
+    let fin = show(&seen, &mut cells);
+    Some((snaps, fin))
+}
+
+fn r_one(out: &mut Out, progs: &[Vec<RCall>], classes: &[String], count: usize, sch: &[usize]) {
+    let o = r_execute(progs, classes, sch);
+    let taken: Vec<usize> = o.run.trace.iter().map(|(t, _)| *t).collect();
+    let labels: Vec<&str> = o.run.trace.iter().map(|(_, id)| *id).collect();
+    let per = list(o.snaps.iter().map(|s| if s.is_empty() { ".".to_string() } else { s.join("+") }));
+    let pcs = list(progs.iter().map(|_| "done".to_string()));
+    out.op(
+        &format!("debug conc {} {} {}", count, list(progs.iter().map(|p| rprog_tok(p))), crate::sched::sched_tok(&taken)),
+        &format!("{} | {} | {} | {}", labels.join("."), per, o.fin, pcs),
+    );
+    if o.run.deadlock || o.run.timed_out || !o.run.panicked.is_empty() {
+        out.oracle_fail("concurrent registration: deadlock, timeout or panic", &format!("{:?}", o.run));
+        return;
+    }
+    // a write section that ran although the metric existed already = the re-check under the write lock was needed
+    let mut created: Vec<(u8, usize)> = vec![];
+    let mut cur: Vec<usize> = vec![0; progs.len()];
+    let mut recheck = false;
+    for (t, id) in &o.run.trace {
+        match *id {
+            "c19.call" => {
+                if !matches!(progs[*t].get(cur[*t]), Some(RCall::Reg { .. })) {
+                    cur[*t] += 1;
+                }
+            }
+            "reg.goc.read" => {
+                if let Some(RCall::Reg { kind, cls, .. }) = progs[*t].get(cur[*t]) {
+                    if created.contains(&(*kind, *cls)) {
+                        cur[*t] += 1;
+                    }
+                }
+            }
+            "reg.goc.write" => {
+                if let Some(RCall::Reg { kind, cls, .. }) = progs[*t].get(cur[*t]) {
+                    if created.contains(&(*kind, *cls)) {
+                        recheck = true;
+                    } else {
+                        created.push((*kind, *cls));
+                    }
+                    cur[*t] += 1;
+                }
+            }
+            _ => {}
+        }
+    }
+    if recheck {
+        out.nontrivial();
+        out.count("reg_race.write_section_found_entry");
+    }
+    out.count("reg_race.runs");
+    match r_reference(progs, &o.run.trace) {
+        None => out.oracle_fail(
+            "concurrent registration: a thread stopped at unexpected yield points or did not finish its calls",
+            &format!("trace {:?}", o.run.trace),
+        ),
+        Some((want_snaps, want_fin)) => {
+            if want_snaps != o.snaps || want_fin != o.fin {
+                out.oracle_fail(
+                    "several threads registered / updated one metric at the same time: a snapshot does not show the fold of all updates made through all handles of the key (or lists other metrics than the registered ones, or shows a histogram value twice / never) [no-known-signature]",
+                    &format!(
+                        "programs {} ; schedule {} ; snapshots of the threads {:?}, expected {:?} ; snapshot at the end {}, expected {} ; trace {:?}",
+                        list(progs.iter().map(|p| rprog_tok(p))),
+                        crate::sched::sched_tok(&taken),
+                        o.snaps,
+                        want_snaps,
+                        o.fin,
+                        want_fin,
+                        o.run.trace
+                    ),
+                );
+            }
+        }
+    }
+}
+
+/// key classes of a case: 1-2 names x label sets; every use builds the key anew (one of 8 constructors, labels
+/// permuted), so racing registrations hand the registry equal keys that are different instances
+fn r_key(r: &mut Rng, cls: usize) -> Key {
+    let (name, labels): (&str, Vec<(&str, &str)>) = match cls {
+        0 => ("reqs", vec![("host", "a"), ("zone", "1"), ("app", "x")]),
+        1 => ("reqs", vec![]),
+        _ => ("lat", vec![("host", "a")]),
+    };
+    let mut ls: Vec<(String, String)> = labels.iter().map(|(a, b)| (a.to_string(), b.to_string())).collect();
+    for i in (1..ls.len()).rev() {
+        let j = r.below(i + 1);
+        ls.swap(i, j);
+    }
+    build_key(&KeyUse { name: name.to_string(), labels: ls, variant: r.below(8) as u8 })
+}
+
+fn r_classes() -> Vec<String> {
+    let c = |name: &str, ls: &[(&str, &str)]| {
+        let v: Vec<(String, String)> = ls.iter().map(|(a, b)| (a.to_string(), b.to_string())).collect();
+        canon_id(name, &v)
+    };
+    vec![c("reqs", &[("host", "a"), ("zone", "1"), ("app", "x")]), c("reqs", &[]), c("lat", &[("host", "a")])]
+}
+
+fn r_upd(r: &mut Rng, kind: u8, next_val: &mut i64) -> RUpd {
+    match kind {
+        0 => {
+            if r.chance(1, 5) {
+                RUpd::CAbs(r.range(1, 40) as u64)
+            } else if r.chance(1, 12) {
+                RUpd::CInc(u64::MAX - r.below(3) as u64)
+            } else {
+                RUpd::CInc(r.range(1, 9) as u64)
+            }
+        }
+        1 => {
+            if r.chance(1, 2) {
+                RUpd::GSet(r.range(0, 4096) as i64 - 2048)
+            } else {
+                RUpd::GAdd(r.range(0, 2048) as i64 - 1024)
+            }
+        }
+        _ => {
+            *next_val += 1;
+            RUpd::HRec(*next_val * 1024)
+        }
+    }
+}
+
+fn r_gen(r: &mut Rng, out: &mut Out) -> (Vec<Vec<RCall>>, Vec<usize>) {
+    // the metrics of the case: mostly ONE (kind, class) that every thread registers
+    let nm = if r.chance(2, 3) { 1 } else { 2 };
+    let metrics: Vec<(u8, usize)> = (0..nm).map(|_| ([0u8, 1, 2][r.weighted(&[4, 2, 3])], r.below(3))).collect();
+    let nt = r.range(2, 3);
+    let mut next_val = 0i64;
+    let mut progs = vec![];
+    for _ in 0..nt {
+        let mut p = vec![];
+        let mut kinds: Vec<u8> = vec![];
+        let nreg = if r.chance(3, 4) { 1 } else { 2 };
+        for _ in 0..nreg {
+            let (kind, cls) = metrics[if r.chance(4, 5) { 0 } else { r.below(nm) }];
+            p.push(RCall::Reg { kind, cls, key: r_key(r, cls) });
+            kinds.push(kind);
+            for _ in 0..r.range(1, 3) {
+                let h = r.below(kinds.len());
+                p.push(RCall::Upd { h, u: r_upd(r, kinds[h], &mut next_val) });
+            }
+            if r.chance(1, 4) {
+                p.push(RCall::Snap);
+            }
+        }
+        progs.push(p);
+    }
+    if r.chance(1, 2) {
+        progs.push((0..r.range(1, 3)).map(|_| RCall::Snap).collect());
+    }
+    let n = progs.len();
+    out.count(&format!("reg_race.threads={}", n));
+    // schedules: lock-step (everybody reaches the read section before anybody writes), or random with runs
+    let mut sch = vec![];
+    match r.below(3) {
+        0 => {
+            for _ in 0..4 {
+                sch.extend(0..n);
+            }
+        }
+        1 => {
+            let a = r.below(n);
+            let b = (a + 1 + r.below(n - 1)) % n;
+            // a and b up to their write points, then b first
+            sch.extend([a, b, a, b, a, b, b, a]);
+        }
+        _ => {}
+    }
+    let mut cur = r.below(n);
+    for _ in 0..80 {
+        if r.chance(1, 2) {
+            cur = r.below(n);
+        }
+        sch.push(cur);
+    }
+    (progs, sch)
+}
+
+pub fn run_registration_races(cfg: &Cfg, out: &mut Out) {
+    let classes = r_classes();
+    let count = real_shard_count();
+    let root = Rng::new(cfg.seed ^ 0x19_6E6);
+    // corpus: the race of the missed seed C19-6, per kind — two threads register the same new key (built
+    // differently), both miss under the read lock, the second write section finds the first one's entry; updates
+    // through both handles; a third thread snapshots in between and at the end
+    for kind in 0..3u8 {
+        let mut r = root.fork(1000 + kind as u64);
+        let mut nv = 0i64;
+        let mut mk = |r: &mut Rng| vec![RCall::Reg { kind, cls: 0, key: r_key(r, 0) }, RCall::Upd { h: 0, u: r_upd(r, kind, &mut nv) }, RCall::Upd { h: 0, u: r_upd(r, kind, &mut nv) }];
+        let progs = vec![mk(&mut r), mk(&mut r), vec![RCall::Snap, RCall::Snap]];
+        for sch in [
+            vec![0usize, 1, 0, 1, 0, 1, 0, 1, 0, 2, 2, 1, 1, 0, 2],
+            vec![0, 1, 0, 1, 0, 1, 1, 0, 1, 1, 2, 2, 0, 0, 2],
+            vec![0, 0, 0, 0, 0, 0, 1, 1, 1, 1, 1, 2, 2, 2],
+        ] {
+            out.case(&format!("registration race corpus kind={} sched={}", kind_tok(kind), crate::sched::sched_tok(&sch)));
+            r_one(out, &progs, &classes, count, &sch);
+        }
+    }
+    // exhaustive: EVERY schedule of two threads that register one new key and update it once each, per kind
+    // (quick tier: counters; thorough: all three kinds, and a third thread that snapshots once)
+    let kinds: &[u8] = if cfg.thorough { &[0, 1, 2] } else { &[0] };
+    for &kind in kinds {
+        for with_snap in [false, true] {
+            if with_snap && !cfg.thorough {
+                continue;
+            }
+            let mut r = root.fork(2000 + kind as u64);
+            let mut nv = 0i64;
+            let mut progs = vec![
+                vec![RCall::Reg { kind, cls: 0, key: r_key(&mut r, 0) }, RCall::Upd { h: 0, u: r_upd(&mut r, kind, &mut nv) }],
+                vec![RCall::Reg { kind, cls: 0, key: r_key(&mut r, 0) }, RCall::Upd { h: 0, u: r_upd(&mut r, kind, &mut nv) }],
+            ];
+            if with_snap {
+                progs.push(vec![RCall::Snap]);
+            }
+            // depth-first enumeration by replay (as `sched::enumerate`, but every run goes through `r_one`)
+            let mut prefix: Vec<usize> = vec![];
+            let mut runs = 0usize;
+            let limit = if cfg.thorough { 4000 } else { 400 };
+            loop {
+                out.case(&format!("registration race exhaustive kind={} snap={} #{}", kind_tok(kind), with_snap, runs));
+                let o = r_execute(&progs, &classes, &prefix);
+                let taken: Vec<usize> = o.run.trace.iter().map(|(t, _)| *t).collect();
+                // the same schedule again through the full comparison (replays exactly)
+                r_one(out, &progs, &classes, count, &taken);
+                runs += 1;
+                if runs >= limit {
+                    out.count("reg_race.exhaustive_cut");
+                    break;
+                }
+                let mut i = taken.len();
+                let mut next = None;
+                while i > 0 {
+                    i -= 1;
+                    if let Some(alt) = o.run.choices[i].iter().copied().filter(|c| *c > taken[i]).min() {
+                        next = Some((i, alt));
+                        break;
+                    }
+                }
+                match next {
+                    None => {
+                        out.count("reg_race.exhaustive_complete");
+                        break;
+                    }
+                    Some((i, alt)) => {
+                        prefix = taken[..i].to_vec();
+                        prefix.push(alt);
+                    }
+                }
+            }
+            out.count_n("reg_race.exhaustive_runs", runs as u64);
+        }
+    }
+    let n = if cfg.thorough { 1500 } else { 150 };
+    for i in 0..n {
+        let mut r = root.fork(i as u64);
+        out.case(&format!("registration race seed={} i={}", cfg.seed, i));
+        let (progs, sch) = r_gen(&mut r, out);
+        r_one(out, &progs, &classes, count, &sch);
+    }
+}
+
+
 pub fn run_concurrent(cfg: &Cfg, out: &mut Out) {
     use std::sync::Mutex;
+    run_registration_races(cfg, out);
     static META: metrics::Metadata<'static> = metrics::Metadata::new("mv", metrics::Level::INFO, None);
     let root = Rng::new(cfg.seed ^ 0xC19C);
     let n = if cfg.thorough { 600 } else { 120 };
